@@ -186,7 +186,9 @@ def judge_seq(b, r):
     else:
         calls_differ = calls != r["expCalls"]
     calls_bad = calls_differ or kinds["unexpected-call"] or kinds["other-call"] or kinds["missing-call"]
-    replies_bad = r["replies"] != r["expReplies"] or kinds["extra-reply"] or kinds["missing-reply"]
+    aborted = bool(r["issues"])     # the driver stops a behaviour at the first deviation
+    calls_bad = (calls_differ and not aborted) or kinds["unexpected-call"] or kinds["other-call"] or kinds["missing-call"]
+    replies_bad = (r["replies"] != r["expReplies"] and not aborted) or kinds["extra-reply"] or kinds["missing-reply"] or kinds["bad-frame-answered"]
     if calls_bad or replies_bad:
         if bad:
             out.append(("seq/malformed-frame-acted-upon",
